@@ -3,14 +3,14 @@ package main
 func init() {
 	table["C19"] = propSpec{
 		Level: "exploration",
-		Rule:  "distinct_nontrivial = distinct classes observed on groups built by the real ClientGroupConfig.AddClientGroup: probe part policy/n/event (switch, tie-first, wrap-matters, held-during-round, failure kinds ... really observed in a >=100-round history of the real probe service on a synctest clock), select part policy/transport/n/phase (sequential cyclic order, concurrent G x K with observed overlap, random membership)",
+		Rule:  "distinct_nontrivial = distinct classes observed on groups built by the real ClientGroupConfig.AddClientGroup: probe part policy/n/event (switch, tie-first, wrap-matters, held-during-round, failure kinds ... really observed in a >=100-round history of the real probe service on a synctest clock), select part policy/transport/n/phase (sequential cyclic order, concurrent G x K with observed overlap, random membership), udp part udp/policy/n/event (as probe, plus kinds of junk datagrams the DNS probe had to ignore)",
 		Assumptions: append([]string{
 			"the served client is observed at quiescent virtual instants (x.5 ms; every scripted event and tick is at a whole millisecond), so 'during a round' means 'some member's probe of that round has not returned yet'; instants at which a probe completes are not observed",
 			"probe latency is the time from the start of a client's probe (its dial) to the complete 204 response; time a probe job spends queued behind the concurrency limit is not latency; scripted latencies are multiples of 1 ms and never equal to the timeout",
 			"with no completed round, and whenever several members share the best score, the first of them in configuration order is expected; every member has the same number of samples, so averaging over the samples so far or over a zero-padded window orders members identically",
 			"rounds never overrun the probe interval (interval > ceil(n/concurrency) x timeout)",
 			"round-robin: single-threaded selection j (from 0) is member j mod n, i.e. the cycle starts at the first configured client; wrap of the counter at 2^63 is out of scope",
-			"UDP groups with a probing policy are not exercised: probe/udp.go opens a real *net.UDPConn (conn.ListenConfig), which cannot be faked in memory; UDP round-robin/random groups are covered, and the probing selection loops are the same generic code as for TCP",
+			"udp part (ft flavour): probe/udp.go opens a real *net.UDPConn, so UDP probing groups run over real loopback sockets on the process-wide virtual clock, which the driver moves only from one scripted event instant to the next; a harness context with an AfterFunc method (the documented hook of package context) brackets every probe job's start-time and latency measurement, so the clock never moves during a measurement; 'after the round' is judged by polling at a frozen virtual instant (the group must come to serve the model's client within 3 s of real time), 'during the round' is strict; loss of synchronisation is inconclusive; UDP concurrency is >= members; the wall_s recorded for the udp part is virtual seconds",
 		}, commonAssume...),
 		Parts: []partSpec{
 			{Name: "probe", Flavour: "race", TimeoutQ: m10, TimeoutT: m60, Weight: 12},
